@@ -50,3 +50,25 @@ func TestWFClean(t *testing.T) {
 		t.Logf("  %s %d", p, paths[p])
 	}
 }
+
+// TestWFCleanShuffled: the generator output stays clean under key shuffling.
+func TestWFCleanShuffled(t *testing.T) {
+	if os.Getenv("VERIF_DEV") == "" {
+		t.Skip("development aid")
+	}
+	bad := map[string]int{}
+	rapid.Check(t, func(rt *rapid.T) {
+		g := &wf.G{T: rt, Rare: rapid.Bool().Draw(rt, "rare")}
+		w := g.Workflow()
+		g.ShuffleKeys(w.Root)
+		src := ye.Emit(w.Root, g.Layout())
+		ds, _ := lint(src)
+		for _, d := range ds {
+			bad[d.Msg]++
+			if bad[d.Msg] == 1 {
+				t.Logf("UNCLEAN %s\n%s", d, src)
+			}
+		}
+	})
+	t.Logf("distinct unclean messages=%d", len(bad))
+}
